@@ -29,7 +29,7 @@ LEVEL = "exploration"
 RULE = ("range/sign/predicate contracts on float64 object, NumPy and Awkward vectors and 60-digit objects, all 20 "
         "coordinate systems (all pairs for binary ones), operands from generic strata plus boundary strata (axis-aligned, "
         "zero components, phi at and next to +-pi, on/next to the light cone, signed zeros, 1e-300..1e150 magnitudes), "
-        "tolerances 0..0.5; a cell is (contract, coordinate signature, backend, stratum), non-trivial when the contract's "
+        "tolerances 0..0.5 (0..2.5 and operand lengths 1e-90..1e90 for the angle predicates); a cell is (contract, coordinate signature, backend, stratum), non-trivial when the contract's "
         "precondition held (finite in-domain operands, outside the decision margin for strict/sign contracts) and it was evaluated")
 ASSUMPTIONS = [
     "closed bounds (<= pi, >= 0, not NaN) are asserted unconditionally on finite in-domain operands; strict inequalities "
@@ -41,6 +41,7 @@ SHARD_TIMEOUT = {"quick": 900, "thorough": 7200}
 PI = math.pi
 MARGIN = mpf(10) ** -9
 TOLS = [0.0, 1e-12, 1e-5, 1e-2, 0.2, 0.5]
+ANGLE_TOLS = TOLS + [1.0, 1.5, 2.5]  # "all tolerances >= 0": beyond 1 the thresholds 1 - tol and -1 + tol change sign
 
 
 # ---------------------------------------------------------------------------
@@ -515,6 +516,13 @@ def run_angle(spec, tier, seed, res, hook):
             comps[0], comps[1] = a.x - e * a.y, a.y + e * a.x
             pairs.append(("nearparallel", a, R.RV(*comps)))
             pairs.append(("nearantiparallel", a, R.op_scale(R.RV(*comps), -1)))
+            # the same geometric configurations at very large / very small / mixed magnitudes (2^+-300 ~ 1e+-90):
+            # the cosine does not depend on the lengths
+            ka, kb = r.choice([(300, 300), (-300, -300), (300, -300), (-300, 300), (250, 0), (0, -250)])
+            for lab_, a_, b_ in list(pairs[-6 if dim == 2 else -5:]):
+                if lab_.startswith("near"):
+                    continue
+                pairs.append((lab_ + ":scaled", R.op_scale(a_, mpf(2) ** ka), R.op_scale(b_, mpf(2) ** kb)))
         rows_a, rows_b, labs, ex = [], [], [], []
         for lab, a, b in pairs:
             ca, cb = _coords_f64(a, s1), _coords_f64(b, s2)
@@ -566,7 +574,7 @@ def run_angle(spec, tier, seed, res, hook):
                 check("deltaphi in [-pi,pi]", call("deltaphi"), lambda v, i: not _isnan(v) and -PI <= v <= PI)
                 if dim >= 3:
                     check("deltaangle in [0,pi]", call("deltaangle"), lambda v, i: not _isnan(v) and 0 <= v <= PI)
-                for tol in TOLS:
+                for tol in ANGLE_TOLS:
                     par, anti, perp = call("is_parallel", tol), call("is_antiparallel", tol), call("is_perpendicular", tol)
 
                     def cosang(i):
